@@ -175,6 +175,19 @@ func corpusCheck(args []string) int {
 			}
 			got = corpusRec{Name: want.Name, Origin: want.Origin, Source: want.Source}
 			execRecord(p, &out, &lg, &got)
+			// the same file handed over one byte per read means the same
+			var out1, lg1 bytes.Buffer
+			p1, err1 := bcl.LoadProg(&patReader{data: append([]byte{}, file...), pat: []int{1}}, want.Name, bcl.OptOutput(&out1), bcl.OptLogger(&lg1), bcl.OptDisasm(true))
+			if err1 != nil {
+				pan = "LoadProg (one byte per read): " + err1.Error()
+				return
+			}
+			g1 := corpusRec{}
+			execRecord(p1, &out1, &lg1, &g1)
+			if g1.Out != got.Out || g1.ErrCls != got.ErrCls || g1.Blocks != got.Blocks || g1.Binding != got.Binding || g1.Disasm != got.Disasm {
+				pan = "the file means something else when read one byte at a time"
+				return
+			}
 			// a recorded compiler dump must also be what the compiler writes today for the same source (format stability of new dumps)
 			if want.Origin == "compiler" {
 				q, err := bcl.Parse([]byte(want.Source), strings.TrimPrefix(want.Name, "c-"), bcl.OptOutput(&bytes.Buffer{}), bcl.OptLogger(&bytes.Buffer{}))
